@@ -364,6 +364,8 @@ func check(prop, tier string, seed uint64) int {
 	sampleGiven := map[int]bool{}
 	isolated := map[int]bool{}
 	infraNote, infraCount := "", 0
+	retriedChunk := map[[2]uint64]bool{}
+	infraRetried := 0
 	var quickDeadline time.Time // bounds the quick tier on slow trees, and the isolated re-search
 	if tier == "quick" {
 		quickDeadline = t0.Add(time.Duration(envInt("VERIF_QUICK_MAX_S", 150)) * time.Second)
@@ -436,6 +438,34 @@ func check(prop, tier string, seed uint64) int {
 						args = append(args, "-stopat", fmt.Sprint(deadline.Unix()))
 					}
 					wo := runWorker(bt.bins[lc.Race], 30*time.Minute, args...)
+					if d := os.Getenv("VERIF_DEBUG_FAIL_CHUNK"); d != "" && d == fmt.Sprintf("%s:%d", lc.Name, from) {
+						// development aid: pretend this chunk's worker failed (once, or
+						// every time with VERIF_DEBUG_FAIL_ALWAYS) to exercise the retry
+						mu.Lock()
+						first := !retriedChunk[[2]uint64{uint64(li), from}]
+						mu.Unlock()
+						if first || os.Getenv("VERIF_DEBUG_FAIL_ALWAYS") != "" {
+							wo.exit, wo.stderr = 2, "INFRA: pretended failure (VERIF_DEBUG_FAIL_CHUNK)"
+						}
+					}
+					if wo.err != nil || (wo.exit != 0 && wo.exit != 66 && wo.exit != 77) {
+						// A chunk that could not be completed is run once more in a
+						// fresh process before it counts: a run is a pure function of
+						// its tape, so trouble that does not repeat was the machine's
+						// (load, memory), and trouble that repeats is reported.
+						logInfraChunk(prop, lc.Name, from, to, wo)
+						mu.Lock()
+						again := !retriedChunk[[2]uint64{uint64(li), from}]
+						if again {
+							retriedChunk[[2]uint64{uint64(li), from}] = true
+							states[li].retry = append(states[li].retry, [2]uint64{from, to})
+							infraRetried++
+						}
+						mu.Unlock()
+						if again {
+							continue
+						}
+					}
 					if wo.err != nil {
 						// e.g. output garbled by a library that corrupts memory: deferred
 						// like any other chunk that could not be completed
@@ -577,6 +607,9 @@ func check(prop, tier string, seed uint64) int {
 		writeEvidence(prop, tier, seed, a, bt, lcs, time.Since(t0).Seconds(), 0, nworkers, known, nil)
 		infra("%d worker chunk(s) could not be completed and no violation was found; first: %s", infraCount, infraNote)
 	}
+	if infraRetried > 0 {
+		fmt.Printf("note: %d worker chunk(s) were run a second time after an infrastructure failure (logs under %s/replays/infra-*.log)\n", infraRetried, verifDir)
+	}
 	if infraNote != "" {
 		fmt.Printf("note: %d worker chunk(s) ended with an infrastructure failure during this search (first: %.300s)\n", infraCount, infraNote)
 	}
@@ -629,4 +662,13 @@ func tailOf(s string, n int) string {
 
 func indent(s, pre string) string {
 	return pre + strings.ReplaceAll(strings.TrimRight(s, "\n"), "\n", "\n"+pre)
+}
+
+// logInfraChunk keeps what a worker that could not complete its chunk wrote
+// (the replays directory is not under version control).
+func logInfraChunk(prop, lane string, from, to uint64, wo workerOut) {
+	dir := filepath.Join(verifDir, "replays")
+	os.MkdirAll(dir, 0o755)
+	name := filepath.Join(dir, fmt.Sprintf("infra-%s-%s-%d-%d.log", prop, lane, from, time.Now().Unix()))
+	os.WriteFile(name, []byte(fmt.Sprintf("lane %s runs %d..%d exit=%d err=%v\n%s", lane, from, to, wo.exit, wo.err, tailOf(wo.stderr, 20000))), 0o644)
 }
